@@ -132,7 +132,7 @@ CHECKS = {
         "re-prefixed, unshadowed default-store keys), write exclusivity/frame, to_root_key for owned keys and through any depth of nested translating layers (to_root_key_chain, to_root_key_nested_reaches). "
         "to_root_key_reaches_statement without the ownership hypothesis is false (an inner mount shadows the root key) and kept statement-only with its refutation. Correspondence: all mount tables <= 3 mounts "
         "over {a,a/b,c,c/d,ab,c/dd} (names that extend each other as text but not as paths) x {memory,file} x default {none,empty,populated} with generated histories, nested mount-point stores of depth 2-3, a "
-        "mounted RecipeSpecStore (recipes_key); oracle = union of the parts. The nested probe also mounts the same store twice at one key and checks is_dir / contains / listdir at every inner mount point (repo fix a6dff51)."),
+        "mounted RecipeSpecStore (recipes_key); oracle = union of the parts. NESTED mount-point stores with the REAL is_supported (StoreMountNested.lean: Mt.supports, nestedOps = mountOps over mount states): supports_dirs, nested_dir_lifts, nested_at_mount_point (is_dir / contains / listdir at and above inner mount points, any depth by iteration), nested_depth3, nested_exclusive_partial, nested_old_loses_mount_point (the defect repaired by a6dff51) and nested_exclusive_false_if_unsupported (why a missing route must raise instead of answering False: the first version of the repair did, corrected by 2edf0fa). The nested probe also mounts the same store twice at one key, checks is_dir / contains / listdir at every inner mount point and that a stray key below an inner mount point never reaches an outer default store."),
   note=("Trusted: Lean kernel; LiquerModel/StoreMount.lean mirror of MountPointStore/PrefixStore (as fixed by the D7a-g commits); a recursive removedir reaching a mount point deletes what is below and then "
         "raises (modelled as it is)."),
  ),
